@@ -50,6 +50,8 @@ CLI_NOTE = ("Trusted: TLC; the network parsers of biodivine-lib-param-bn; BDD te
 CLI = {
  "C16": ("archive as a map in TLA+ (Trace_Arch.RoundTrip); trace validation of build_result_archive -> zip directory -> model re-parse -> load_bdd_bundle, explicit sets before/after, wild-card probe",
          "Label->set maps incl. empty, full, beyond-unit and result sets, on aeon / bnet / sbml inputs, k = 0..2; reloaded sets, entry list, formula list and model judged by TLC."),
+ "C19": ("input/output relation of the converter in TLA+ (Converter.Related) evaluated by TLC on recorded runs of the binary (Trace_Conv); the Shannon-expansion algorithm model-checked against completeness for arity 0..3 (MC_Converter)",
+         "For each target TLC enumerates every valuation of the fresh constants and compares the set of truth tables with the set of instantiations of the input function; inputs stay inputs, no other targets, no crash."),
  "C17": ("state machine of one tool run in TLA+ (Cli.tla); path-wise trace validation by TLC of the binary's stdout lines, exit status and -o archive against it (Trace_Cli.tla), reference sets from the library API",
          "Every recorded run is an independent behaviour: the machine runs, the recorded lines are consumed against its output; order, texts, the three counts, exhaustive state lists, archived sets, and message-not-crash for failure scenarios."),
 }
